@@ -1096,7 +1096,7 @@ func init() {
 			}
 			sizes := []int{0, 1, 15, 16, 17, 31, 32, 33, 54, 55, 56, 57, 63, 64, 65, 119, 120, 127, 128, 129, 255, 256, 1000, 4096}
 			rb := func(n int) string { b := make([]byte, n); c.Rand.Read(b); return core.Hex(b) }
-			for i := 0; i < c.N(60, 600); i++ {
+			for i := 0; i < c.N(100, 1000); i++ {
 				n := sizes[c.Rand.Intn(len(sizes))]
 				if c.Rand.Intn(3) == 0 {
 					n = c.Rand.Intn(3000)
@@ -1214,7 +1214,7 @@ func init() {
 			}
 
 			// 2./3. segments through the real underlay writers / readers
-			nseg := c.N(60, 700)
+			nseg := c.N(240, 3000)
 			for i := 0; i < nseg; i++ {
 				u, p := c09RandCred(c)
 				kinds := []string{"stream-r2s", "stream-s2r", "packet-r2s", "packet-s2r"}
